@@ -386,6 +386,7 @@ func compareEmittedMode(c *ev.Ctx, tag string, pkgs []tvPackage, goRes map[strin
 	l := v2tla.New()
 	l.AddFile(pf)
 	expect := map[string]goResult{}
+	expectPanic := map[string]goResult{} // Go panicked explicitly: the emitted definition must not return normally
 	for _, p := range pkgs {
 		st.Programs++
 		text, have := files[p.Name]
@@ -415,6 +416,15 @@ func compareEmittedMode(c *ev.Ctx, tag string, pkgs []tvPackage, goRes map[strin
 			}
 			if gr.Panic != "" {
 				st.GoPanicked++
+				if mustPanicKeys != nil && defs[gr.Name] {
+					for _, e := range p.Entries {
+						if e.Name == gr.Name && len(e.Keys) == 1 && mustPanicKeys[e.Keys[0]] {
+							tn := p.Name + "." + gr.Name
+							l.AddTest(tn, gl.CallNoArgs(gr.Name), map[string]any{"t": "u64"})
+							expectPanic[tn] = gr
+						}
+					}
+				}
 				continue
 			}
 			if !defs[gr.Name] {
@@ -441,6 +451,14 @@ func compareEmittedMode(c *ev.Ctx, tag string, pkgs []tvPackage, goRes map[strin
 	}
 	seen := map[string]bool{}
 	for _, o := range outs {
+		if gp, isP := expectPanic[o.Name]; isP {
+			if o.St == "done" {
+				parts := strings.SplitN(o.Name, ".", 2)
+				st.Compared++
+				dis = append(dis, tvDisagreement{Pkg: parts[0], Entry: parts[1], Kind: "go-panics-model-returns", Detail: "Go panics (" + gp.Panic + ") but the emitted definition returns normally: the panicking call was dropped or weakened", ModelRes: string(o.Res)})
+			}
+			continue
+		}
 		gr, ok := expect[o.Name]
 		if !ok || seen[o.Name] {
 			continue
@@ -494,6 +512,9 @@ func isProgramName(n string) bool {
 	}
 	return true
 }
+
+// mustPanicKeys: catalogue constructs whose entry panics in Go by an explicit panic / log.Panic call (set by C02)
+var mustPanicKeys map[string]bool
 
 func keysList(m map[string]bool) []string {
 	var ks []string
@@ -611,7 +632,7 @@ func C01(c *ev.Ctx) {
 func c01Boundary(c *ev.Ctx) (int, int) {
 	var its []goosegen.Item
 	for _, it := range goosegen.Catalogue {
-		if goosegen.RejectedAtPin[it.Key] && !strings.HasPrefix(it.Key, "lookalike.") {
+		if (goosegen.RejectedAtPin[it.Key] || strings.HasPrefix(it.Key, "partial.")) && !strings.HasPrefix(it.Key, "lookalike.") {
 			its = append(its, it)
 		}
 	}
@@ -631,6 +652,7 @@ func c01Boundary(c *ev.Ctx) (int, int) {
 		var sb strings.Builder
 		var body strings.Builder
 		usesMachine := false
+		var std []string
 		var entries []goosegen.Entry
 		for _, it := range its[p*per : min(len(its), (p+1)*per)] {
 			n++
@@ -639,6 +661,7 @@ func c01Boundary(c *ev.Ctx) (int, int) {
 			if strings.Contains(decls+entry, "machine.") {
 				usesMachine = true
 			}
+			std = append(std, it.Imports()...)
 			body.WriteString(decls + "\n" + entry + "\n")
 			entries = append(entries, goosegen.Entry{Name: en, Keys: []string{it.Key}})
 			own[name] = append(own[name], owner{it.Key, en})
@@ -648,7 +671,7 @@ func c01Boundary(c *ev.Ctx) (int, int) {
 			sb.WriteString("import \"github.com/goose-lang/goose/machine\"\n\n")
 		}
 		sb.WriteString(body.String())
-		pkgs = append(pkgs, tvPackage{Name: name, Source: sb.String(), Entries: entries, Keys: map[string]bool{}})
+		pkgs = append(pkgs, tvPackage{Name: name, Source: goosegen.AddImports(sb.String(), std), Entries: entries, Keys: map[string]bool{}})
 	}
 	for _, p := range pkgs {
 		var es []string
